@@ -23,9 +23,11 @@
 (* includes a side effect: it consumes one frame (cursor + 1).             *)
 (*                                                                         *)
 (* The impure behaviours are written down too (MutatingCall, CachedCall,   *)
-(* FileFromOtherObject, StateCorruptingCall, CursorStealingCall).  They    *)
-(* are NOT part of Next; MC_Session adds one at a time (constant Impure)   *)
-(* to show that each invariant is violated by the behaviour it forbids.    *)
+(* FileFromOtherObject, StateCorruptingCall, CursorStealingCall,           *)
+(* AliasedResultCall).  They are NOT part of Next; MC_Session adds one at  *)
+(* a time (constant Impure) to show that each invariant is violated by the *)
+(* behaviour it forbids.  Scribble (the user overwrites a returned value   *)
+(* in place) IS a legitimate user action: it changes nothing else.         *)
 (***************************************************************************)
 EXTENDS Integers, Sequences, FiniteSets, TLC
 
@@ -247,7 +249,7 @@ Step(W, c, res, objs2, ana2, cur2, filecontent) ==
                                achg  |-> {x \in DOMAIN ana2 : AnaOf(ana2, x[1], x[2]) # AnaOf(ana, x[1], x[2])},
                                cchg  |-> {s \in Targets : cur2[s] # cursor[s]},
                                cur   |-> << cur2[1].act, cur2[2].act >>,
-                               wrote |-> w, ready |-> Ready(c, ana, cursor, W)])
+                               wrote |-> w, ready |-> Ready(c, ana, cursor, W), scr |-> FALSE])
 
 Here(c) == Val(Key(c, ana, cursor), objs, Hidden(c, ana, cursor))
 
@@ -256,7 +258,24 @@ Exec(W, c) ==
   /\ Step(W, c, Here(c), objs, AnaAfter(c, ana), CurAfter(c, cursor), Written(Here(c)))
   /\ UNCHANGED cache
 
+(* The user overwrites, in place, the value that step i returned (y *= w, y[:] = 0, ...).  A result is a
+   fresh value owned by the caller: in the pure specification nothing else changes - in particular a later
+   call with the same identity still returns the original value (RepeatAgrees).  Only a value handed out
+   from a shared cache (AliasedResultCall below) is affected.                                          *)
+Scribble(i) ==
+  /\ i \in DOMAIN hist /\ ~hist[i].scr
+  /\ hist'  = [hist EXCEPT ![i].scr = TRUE]
+  /\ cache' = [k \in DOMAIN cache |-> IF k = hist[i].key THEN << "scribbled", cache[k] >> ELSE cache[k]]
+  /\ UNCHANGED <<objs, ana, cursor, disk, memo, pending, word>>
+
 (* ---- impure behaviours (not in Next) ---- *)
+(* memoisation keyed by the FULL call identity (functools.lru_cache) that hands out the cached object
+   itself instead of a copy: pure until a caller modifies what it was given                      *)
+AliasedResultCall(W, c) ==
+  LET k   == Key(c, ana, cursor)
+      res == IF k \in DOMAIN cache THEN cache[k] ELSE Here(c) IN
+  /\ Step(W, c, res, objs, AnaAfter(c, ana), CurAfter(c, cursor), Written(res))
+  /\ cache' = Put(cache, k, res)
 (* in-place centring / normalising / sorting of a snapshot array or an array argument *)
 MutatingCall(W, c, o) ==
   /\ o \in ObjsOfTarget(c.s)
